@@ -21,7 +21,7 @@ def child(job, wfd):
         if not job.get("keep_out"):
             os.dup2(dn, 1)
             os.dup2(dn, 2)
-        os.chdir(job["root"])
+        os.chdir(job.get("cwd") or job["root"])       # optional job key "cwd": the directory the build is started from
         sys.path.insert(0, job["root"])
         import pytask
         kw = dict(job["kw"])
@@ -38,6 +38,8 @@ def child(job, wfd):
                 kw["tasks"] = [getattr(mod, n) for n in job["tasks_from"]["names"]]
                 if not job["tasks_from"].get("with_paths"):
                     paths = ()
+            if job.get("raw_paths"):                  # optional: the project addressed through another spelling (relative, alias), verbatim
+                paths = list(job["raw_paths"])
             session = pytask.build(paths=paths, **kw)
         except BaseException as e:  # noqa: BLE001
             res["raised"] = type(e).__name__
